@@ -79,12 +79,17 @@ PLANS = {
 }
 
 
+# scenario counts in PLANS are multiplied by this (measured so that a warm quick run of each family takes 30-80 s)
+SCALE = {"deliver": 3, "order": 4, "flush": 5, "backtrace": 5, "threads": 2, "faults": 6, "drop": 3, "progress": 4, "levels": 6, "lines": 6, "lifecycle": 6}
+
+
 def jobs(exes, family, tier, seed, prop, plans=None):
     js = []
     n = 0
     wd = core.workdir()
     for (queue, variant, mode, quick, thorough) in (plans or PLANS)[family]:
         procs, scen = quick if tier == "quick" else thorough
+        scen = scen * SCALE.get(family, 4)
         for p in range(procs):
             n += 1
             d = os.path.join(wd, "%s_%s_%d" % (family, prop, n))
